@@ -281,6 +281,7 @@ fn tokens_invariant(chars: &[char], text: &'static str, twice: bool) {
         Err(_) => unreachable!(),
     };
     let d1 = if twice {
+        let d1 = rebuild(&d1, &S6);
         let l2 = [2u16, 1];
         let r2 = [1u16, 2];
         match d1.map_connection_ids_from_iter(l2.iter().cloned(), r2.iter().cloned()) {
@@ -290,6 +291,9 @@ fn tokens_invariant(chars: &[char], text: &'static str, twice: bool) {
     } else {
         d1
     };
+    // the mapped dictionary came back inside a `Result`: reassemble the same state field by field
+    // so that the connector dispatch in `tokenize` folds again
+    let d1 = rebuild(&d1, &S6);
     let tok1_owned = Tokenizer::new(d1);
     let tok1 = &tok1_owned;
     let mut w1 = tok1.new_worker();
@@ -408,7 +412,7 @@ fn clone_lex(l: &Lexicon, ls: &LexSpec, t: LexType) -> Lexicon {
     Lexicon::verif_from_parts(ls.trie, copy_u32(ls.post), params, feats, t)
 }
 
-//@ c06_tokens_invariant_ab {"tier":"thorough","core":false,"desc":"tokenizing \"ab\" with the mapped dictionary gives the same optimal cost and, per boundary, the same candidates with the same prefix minima as the unmapped one, for swapped ids on both sides","bounds":"N=2; dictionary S6 (system {a,ab}, user {b}, 3x3 matrix); mappings [2,1],[2,1]","symbolic":"all costs/ids, matrix","functions":["Dictionary::map_connection_ids_from_iter","Worker::tokenize","Tokenizer::build_lattice","Lattice::*"],"unwind":8,"fs":2048,"timeout":1800,"mem_gb":20,"stubs":["alloc::fmt::format"]}
+//@ c06_tokens_invariant_ab {"tier":"thorough","desc":"tokenizing \"ab\" with the mapped dictionary gives the same optimal cost and, per boundary, the same candidates with the same prefix minima as the unmapped one, for swapped ids on both sides","bounds":"N=2; dictionary S6 (system {a,ab}, user {b}, 3x3 matrix); mappings [2,1],[2,1]","symbolic":"all costs/ids, matrix","functions":["Dictionary::map_connection_ids_from_iter","Worker::tokenize","Tokenizer::build_lattice","Lattice::*"],"unwind":8,"fs":2048,"timeout":1800,"mem_gb":20,"stubs":["alloc::fmt::format"]}
 #[cfg(kani)]
 #[kani::proof]
 #[kani::stub(alloc::fmt::format, stub_format)]
